@@ -75,8 +75,16 @@ class DriverError(Exception):
     pass
 
 
+def _wait_driver(max_wait=40.0):
+    """The binary is briefly absent while a concurrent `lake build` relinks it."""
+    t0 = time.time()
+    while not os.path.exists(DRIVER) and time.time() - t0 < max_wait:
+        time.sleep(0.5)
+    return os.path.exists(DRIVER)
+
+
 def run_driver(component, lines, timeout=600):
-    if not os.path.exists(DRIVER):
+    if not _wait_driver():
         raise DriverError("driver binary missing (lake build failed?)")
     data = "\n".join(lines) + "\n"
     p = subprocess.run([DRIVER, component], input=data.encode(), stdout=subprocess.PIPE,
@@ -93,7 +101,7 @@ class DriverProc:
     """Long-lived driver process for interactive (request/response) protocols."""
 
     def __init__(self, component):
-        if not os.path.exists(DRIVER):
+        if not _wait_driver():
             raise DriverError("driver binary missing (lake build failed?)")
         self.p = subprocess.Popen([DRIVER, component], stdin=subprocess.PIPE, stdout=subprocess.PIPE,
                                   stderr=subprocess.PIPE, bufsize=0)
